@@ -19,8 +19,8 @@ LABEL_RULES = [
 ]
 
 # cc_q4 / cc_t5 / cc_t6: long SwapValue callbacks (the cell's mutex held over several steps) with concurrent set / get / waiters
-SCEN = {"quick": ["cc_q1", "cc_q2", "cc_q3", "cc_q4"],
-        "thorough": ["cc_q1", "cc_q2", "cc_q3", "cc_q4", "cc_t1", "cc_t2", "cc_t3", "cc_t4", "cc_t5", "cc_t6"]}
+SCEN = {"quick": ["cc_q1", "cc_q2", "cc_q3", "cc_q4", "cc_q5"],
+        "thorough": ["cc_q1", "cc_q2", "cc_q3", "cc_q4", "cc_q5", "cc_t1", "cc_t2", "cc_t3", "cc_t4", "cc_t5", "cc_t6"]}
 BIG = ["cc_b1", "cc_b2"]   # thorough: model checked only (graph too large to dump)
 
 
@@ -50,12 +50,13 @@ def mk_factory(sc):
     prog = tla_prog(sc)
 
     def mk(d, kind):
-        consts = ["Prog <- ScProg", "InitVal = %d" % sc.get("init", 0), "M = %d" % sc.get("m", 0),
+        m = sc.get("m", 0)   # (a TLC config file cannot hold a negative literal)
+        consts = ["Prog <- ScProg", "InitVal = %d" % sc.get("init", 0), "M <- ScM",
                   "EagerWake = %s" % ("TRUE" if kind == "graph" else "FALSE")]
         cfg = ["INIT Init", "NEXT Next", "CHECK_DEADLOCK FALSE", "CONSTANTS"] + [" " + c for c in consts]
         if kind == "mc":
             cfg += ["INVARIANTS TypeOK CellAgree MtxAgree NoLostWake ModelSafe QuietInv"]
-        vlib.write_mc(d, "MC", "CContainer", ["ScProg == " + vlib.json2tla(prog)], cfg)
+        vlib.write_mc(d, "MC", "CContainer", ["ScProg == " + vlib.json2tla(prog), "ScM == %s" % (str(m) if m >= 0 else "0 - %d" % -m)], cfg)
     return mk
 
 
@@ -143,8 +144,9 @@ def x_conformance(wd, binp, seed, names, nrand=100):
                 total["samples"].append("%s: harness failed" % name)
             return
         d = vlib.spec_scratch(wd, "x-" + name, ["ccontainer", "lib"])
-        consts = ["Prog <- ScProg", "InitVal = %d" % sc.get("init", 0), "M = %d" % sc.get("m", 0), "EagerWake = FALSE"]
-        vlib.write_mc(d, "MCX", "CContainerXTrace", ["ScProg == " + vlib.json2tla(tla_prog(sc))],
+        m = sc.get("m", 0)
+        consts = ["Prog <- ScProg", "InitVal = %d" % sc.get("init", 0), "M <- ScM", "EagerWake = FALSE"]
+        vlib.write_mc(d, "MCX", "CContainerXTrace", ["ScProg == " + vlib.json2tla(tla_prog(sc)), "ScM == %s" % (str(m) if m >= 0 else "0 - %d" % -m)],
                       ["INIT TInit", "NEXT TNext", "CHECK_DEADLOCK FALSE", "CONSTANTS"] + [" " + c for c in consts])
         vf = os.path.join(d, "verdict.json")
         r = vlib.run_tlc(d, "MCX", "MCX.cfg", workers=1, timeout=600,
